@@ -112,6 +112,11 @@ func (f *faultSpec) failure() error {
 	return fmt.Errorf("%s", faultMarker(f.node))
 }
 
+// cacheDir is the directory of the cache files of the current case (set by the C13 runner).
+var cacheDir string
+
+func cachePrefix(name string) string { return "verif://" + cacheDir + "/" + name }
+
 var progCounters = []metrics.Counter{metrics.NewCounter(), metrics.NewCounter(), metrics.NewCounter()}
 
 func mapFn(name string) func(k, v int64) (int64, int64) {
@@ -237,6 +242,23 @@ func (e *progEnv) build(name string, op []string) bigslice.Slice {
 			return bigslice.Map(e.ref(op[1]), func(k, v int64) (int64, int64) { ft.maybePanic(); return fn(k, v) })
 		}
 		return bigslice.Map(e.ref(op[1]), mapFn(op[2]))
+	case "mapc":
+		// a Map whose calls are counted (C13: was the upstream of a cached shard executed?)
+		fn := mapFn(op[2])
+		ftc := faultFor(e.run, name)
+		return bigslice.Map(e.ref(op[1]), func(k, v int64) (int64, int64) {
+			fx.mu.Lock()
+			fx.calls[name]++
+			fx.mu.Unlock()
+			ftc.maybePanic()
+			return fn(k, v)
+		})
+	case "cache":
+		return bigslice.Cache(context.Background(), e.ref(op[1]), cachePrefix(op[2]))
+	case "cachepartial":
+		return bigslice.CachePartial(context.Background(), e.ref(op[1]), cachePrefix(op[2]))
+	case "readcache":
+		return bigslice.ReadCache(context.Background(), typ2, atoi(op[1]), cachePrefix(op[2]))
 	case "mapm":
 		return bigslice.Map(e.ref(op[1]), mapFn(op[2]), bigslice.ExperimentalMaterialize)
 	case "mapp":
